@@ -10,14 +10,17 @@ tvars == <<svars, l>>
 Ev == TraceLog[l]
 IsEvent(e) == l <= Len(TraceLog) /\ TraceLog[l].e = e /\ l' = l + 1
 TInit == l = 1 /\ SInit
-TReset == IsEvent("Reset") /\ base' = NoRun /\ run' = NoRun /\ haveBase' = FALSE
-TWriteBase == IsEvent("WriteBase") /\ Ev.res = "ok" /\ WriteBase(Ev.n, Ev.steps)
+TReset == IsEvent("Reset") /\ base' = NoRun /\ run' = NoRun /\ haveBase' = FALSE /\ base0' = NoRun
+TWriteBase0 == IsEvent("WriteBase0") /\ Ev.res = "ok" /\ WriteBase0(Ev.n, Ev.steps)
+TWriteBase == IsEvent("WriteBase") /\ Ev.res = "ok" /\ WriteBase(Ev.n, Ev.steps, Ev.rstep0)
 TWriteRun == IsEvent("WriteRun") /\ Ev.res = "ok" /\ WriteRun(Ev.n, Ev.steps, Ev.rstep)
+Max3(a, b, c) == IF a >= b /\ a >= c THEN a ELSE IF b >= c THEN b ELSE c
 ReadOk == LET ax == Axis(Ev.withBase) IN
           /\ Ev.res = "ok"
           \* with the base run loaded a reader presents the union of the two vector sets
           \* (the legacy reader; the ESMRY reader presents the run's own vectors)
-          /\ Ev.nvect = (IF Ev.reader # "ext" /\ Ev.withBase /\ haveBase /\ base.n > run.n THEN base.n ELSE run.n)
+          /\ Ev.nvect = (IF Ev.reader # "ext" /\ Ev.withBase /\ haveBase
+                          THEN Max3(run.n, base.n, IF base0 = NoRun THEN 0 ELSE base0.n) ELSE run.n)
           /\ Ev.times = Times(ax)
           /\ Ev.rstepPos = RstepPos(ax)
           /\ Ev.valuesOk = TRUE /\ Ev.unitsOk = TRUE /\ Ev.startOk = TRUE /\ Ev.keysOk = TRUE
@@ -25,7 +28,7 @@ TRead == IsEvent("Read") /\ UNCHANGED svars /\ ReadOk
 TDiag == /\ l <= Len(TraceLog) /\ Ev.e = "Read" /\ ~ReadOk
          /\ PrintT(<<"DIAG", l, [reader |-> Ev.reader, expTimes |-> Times(Axis(Ev.withBase)), expPos |-> RstepPos(Axis(Ev.withBase))]>>)
          /\ FALSE /\ UNCHANGED tvars
-TNext == TReset \/ TWriteBase \/ TWriteRun \/ TRead \/ TDiag
+TNext == TReset \/ TWriteBase0 \/ TWriteBase \/ TWriteRun \/ TRead \/ TDiag
 TraceSpec == TInit /\ [][TNext]_tvars
 TraceAccepted == TLCGet("stats").diameter - 1 = Len(TraceLog)
 =============================================================================
